@@ -40,8 +40,10 @@ KNOWN_FILE = os.path.join(VERIF, "known_findings.json")
 _MOD = None
 
 
-class CaseTimeout(Exception):
-    pass
+class CaseTimeout(BaseException):
+    """raised by the per-case alarm; not an Exception so that the checks'
+    'except Exception' around library calls cannot mistake it for a failure of
+    the library"""
 
 
 def _alarm(signum, frame):
